@@ -4,10 +4,11 @@ import worldhist as WH
 import worldgen as W
 import radlib as R
 ID = "C12"
-LEAN_TARGETS = ["Rsp.Props.C12", "Rsp.Tie.C12"]
+LEAN_TARGETS = ["Rsp.Props.C12", "Rsp.Tie.C12", "Rsp.Props.StreamClient"]
 THEOREMS = ["Rsp.Props.C12.run_inv", "Rsp.Props.C12.retries_bounded_and_spaced", "Rsp.Props.C12.due_pass_acts", "Rsp.Props.C12.exact_count_on_time",
             "Rsp.Props.C12.reset_resends_without_consuming", "Rsp.Props.C12.loss_table", "Rsp.Props.C12.incLost_saturates",
-            "Rsp.Props.C12.wait_bound_le_timeout", "Rsp.Tie.C12.defaults_tie", "Rsp.Tie.C12.period_tie"]
+            "Rsp.Props.C12.wait_bound_le_timeout", "Rsp.Tie.C12.defaults_tie", "Rsp.Tie.C12.period_tie",
+            "Rsp.Props.StreamClient.streamConnect_state", "Rsp.Props.StreamClient.connectWait_spacing", "Rsp.Props.StreamClient.connectWait_late"]
 RULE = ("the REAL clientwr thread of every server, stepped one scheduling at a time under a virtual clock (pthread_cond_timedwait replaced by a park/step handshake): "
         "RetryCount 0..10 x RetryInterval 1..60 x four status-server modes x reliable/unreliable fake transports, schedules of {time advance to expiry-1/expiry/expiry+1, "
         "spurious wake-up, reply, connection reset, probe}; compared on transmissions with virtual timestamps, slot tries/expiry, loss counters, mode switches and the "
@@ -75,7 +76,9 @@ def build_one(exe, rng, idx):
 
 
 def gen_run(exe, rng, tier):
-    return WH.run_parallel(exe, rng, 160 if tier == "quick" else 4000, build_one)
+    # … and connections re-established by the real closeh/timeouth/tcpconnect (the reset flag the writer acts on is set by the real connecter)
+    return (WH.run_parallel(exe, rng, 160 if tier == "quick" else 4000, build_one) +
+            WH.run_parallel(exe, rng, 40 if tier == "quick" else 1000, WH.srvconn_history))
 
 
 def dynconf_case(rng):
